@@ -179,7 +179,7 @@ func c11Output(r *prng.R, big *int) mOuts {
 	case k < 21:
 		g.Script = []byte{}
 	default:
-		g.Script = r.Bytes(1 + r.Intn(80))
+		g.Script = nonDataOutputScript(r, 1+r.Intn(80))
 	}
 	g.Sats = gen.Sats(r) % 100_000_000_000
 	return g
